@@ -5,9 +5,11 @@ SPEC = {
     'claimed': True,
     'theorems': ['C09_getv_partial', 'C09_trash_partial', 'C09_trash_keeps_partial',
                  'C09_trash_deletes_only_old_partial', 'C09_delmvcc_restores',
-                 'C09_refuted_getv', 'C09_refuted_trash'],
+                 'C09_refuted_getv', 'C09_refuted_trash',
+                 'C09_block_reads_correct_partial', 'C09_disconnect_restores_partial', 'C09_inblock_reads_partial',
+                 'C09_refuted_disconnect_restores', 'C09_refuted_block_reads_local', 'C09_local_layer_stuck'],
     'allowed_axioms': [],
-    'shard': 15,
+    'shard': 20,
     'rule': 'one case = one version chain (<= 12 versions x <= 8 keys, 0-4 writes per version, duplicates inside a version, '
             'unique 1-2 byte values) over key sets built from the prefixes a b ab a0 k extended by . - 0-9 ! ~ / , + and the '
             'dangerous suffixes (".", "-", ".00000000000000000005", ".0", "..", ...): AddMVCC per version with the kv list written '
@@ -17,13 +19,33 @@ SPEC = {
             'same chain through MVCCIter (last-value listing before/after DelMVCC). Streams: guarded (key set satisfies Safe2, any '
             'spec failure is a violation) and unrestricted (may run into findings 1/2; only the first divergence is classified), '
             'refused adds (wrong prevHash, version gap), empty/nil values (model comparison only), memdb and goleveldb backends, '
-            'plus the two fixed witness chains. non-trivial = some key is written in two different versions; distinct = distinct Gallina terms',
+            'plus the two fixed witness chains. non-trivial = some key is written in two different versions; distinct = distinct Gallina terms. '
+            'BLOCK cases (CB): one case = one history of <= 9 connect / disconnect / restart operations (chain <= 5 blocks, 32-byte state '
+            'hashes, 0-3 writes per block over a Safe2 key set of 2-5 keys) on one store, driven like procExecAddBlock / procExecDelBlock: '
+            'NewStateDB + enableMVCC(prev hash | nil), Set of the block KV set + Get of every query key, mvccPlugin.CheckEnable, '
+            'mvccPlugin.ExecLocal / ExecDelLocal (= executor.AddMVCC / DelMVCC), kv list written to the store; after every operation every '
+            'state hash of the case is opened (NewStateDB(hash, ctx height) + enableMVCC(nil)) and every query key read through StateDB.Get. '
+            'Streams: raw layer with / without the StateDB steps (re-organisations, removed blocks coming back, plugin restarts; any spec '
+            'failure is a violation), same-hash blocks (empty block on its parent; may run into finding 3), node local layer (executor.LocalDB '
+            'over common/db LocalDB; runs into finding 4 at the first query), empty / nil values (model comparison only while such a block is on '
+            'the chain), operations that do not fit the chain (wrong prev hash / height, removal below the top: model comparison only), memdb '
+            'and goleveldb, 4 fixed witnesses. non-trivial (block case) = at least two operations were carried out',
     'trusted_base': ['goleveldb / memdb iterators behave as ordered maps with prefix ranges (that is property C06/C07; here the range '
                      '[prefix, bytesPrefix(prefix)) is modelled as "has prefix")',
                      'protobuf encoding of types.Int64 / types.LocalDBSet values is abstracted to tagged values (VVer, VKeys); only '
                      'the fact that Int64{0} and an empty set encode to zero bytes is modelled',
                      'the Gallina model coq/theories/C09/Model.v is tied to common/db/mvcc.go, mvcc_iter.go and '
                      'ListHelper.nextKeyValue by the differential check only',
+                     'ModelExec.v (plugin_kvmvcc.go, execenv.go AddMVCC/DelMVCC, statedb.go enableMVCC/Get, plugin.go checkFlag) is tied to the '
+                     'code by the block cases only; the harness reproduces the call sequence of executor.go procExecAddBlock / procExecDelBlock '
+                     '(StateDB steps, CheckEnable, ExecLocal / ExecDelLocal) through the add-only hook /repo/executor/mvcc_verif.go; StateDB is '
+                     'used without a queue client (a read without MVCC version answers not-found instead of asking the store)',
+                     'the node local layer is executor.LocalDB with its API calls answered in-process the way blockchain/localdb.go answers '
+                     'them (common/db LocalDB over the store; 30 lines of glue in harness/cmd/hC09/blocks.go), modelled as "a stored value of '
+                     'length 0 reads as not found" for Get and as the plain ordered map for List',
+                     'a state hash identifies a state: the block theorems ask that a connected block does not repeat a state hash that is on '
+                     'the chain (ops_okb), and that a state hash is non-empty and does not start with "version" (hash_safe: hash, version and '
+                     'key-list entries share the prefix .-mvcc-.m.; real state hashes are 32-byte digests)',
                      'the store writer convention (nil value deletes, anything else is Set) is the one of blockchain/blockstore.go, '
                      'reproduced in the harness',
                      'Coq kernel + vm_compute (refutation witnesses, Examples, case evaluation)'],
@@ -36,16 +58,28 @@ SPEC = {
                     '(C09_refuted_getv, finding 1)',
                     'C09_trash_partial needs Safe2 (no key is another key followed by a byte <= "."): refuted without it '
                     '(C09_refuted_trash, finding 2)',
-                    'C09_delmvcc_restores is conditional on DelMVCC accepting (state-hash bookkeeping is checked by correspondence: '
-                    'distinct 8-byte hashes); StateDB.Get with MVCC enabled is a direct call of SimpleMVCC.GetV(key, version) and is '
-                    'not driven separately'],
+                    'C09_delmvcc_restores is conditional on DelMVCC accepting; the unconditional form is C09_disconnect_restores_partial',
+                    'C09_block_reads_correct_partial / C09_disconnect_restores_partial / C09_inblock_reads_partial: histories are node-shaped '
+                    '(height, previous hash and the block removed follow from the chain), fewer than 2^63 operations, over the plain KVDB '
+                    'layer (L = false); every connected state hash is fresh on the chain at that time and hash_safe. Without the fresh-hash '
+                    'guard C09_refuted_disconnect_restores (finding 3); over the node local layer C09_refuted_block_reads_local / '
+                    'C09_local_layer_stuck (finding 4)',
+                    'the GetV guards (non-empty values, Safe1) are asked of the current chain only; blocks that were disconnected may have '
+                    'written anything'],
     'manifest': {
         'level_text': 'partial: GetV correctness proved for all histories under the boolean guard Safe1, Trash safety under Safe2, '
-                      'DelMVCC-restores unguarded; both guards proved necessary (two open findings reproduced on the Go code)',
+                      'DelMVCC-restores unguarded; both guards proved necessary (two open findings reproduced on the Go code). Block '
+                      'execution (kvmvcc plugin + StateDB): for every history of connected / disconnected blocks over the plain KVDB layer '
+                      'nothing panics, a StateDB opened at the state hash of height i reads the latest write at or below i on the current '
+                      'chain, and connect + disconnect restores every read — under fresh state hashes (necessary: finding 3, empty block on its '
+                      'parent); over the node local layer the state of height 0 can never be opened (finding 4, proved for all blocks)',
         'level_note': 'hand-written Gallina model of mvcc.go over an ordered map; tied to the Go code by running version chains '
                       'through SimpleMVCC/MVCCHelper/MVCCIter on memdb and goleveldb and evaluating model and spec on the same '
-                      'chains inside the Coq kernel; protobuf value encoding and the backend iterators are trusted',
-        'technique': 'Coq proof (store characterisation by induction over the history, reverse-walk invariant for Trash) + '
+                      'chains inside the Coq kernel; protobuf value encoding and the backend iterators are trusted. Block level: '
+                      'hand-written model of plugin_kvmvcc.go / execenv.go / statedb.go tied to the code by block histories driven through '
+                      'the real plugin, executor.AddMVCC/DelMVCC and StateDB (hook executor/mvcc_verif.go) on both local layers',
+        'technique': 'Coq proof (store characterisation by induction over the history, reverse-walk invariant for Trash, '
+                     'store-vs-chain relation preserved by connect / disconnect for block histories) + '
                      'in-kernel correspondence check'},
     'harness_timeout': {'quick': 300, 'thorough': 3000},
 }
